@@ -36,11 +36,24 @@ BirthdayOK == (Rec.op = "birthday" /\ Done) =>
 \* fair binary events (sign bits, measurement coins): |c0 - c1| <= 8 sqrt(n)  <=>  (c0-c1)^2 <= 64 n
 \* per-qubit letter tallies of the images of X_1 and Z_1 (rows 1, 2 of the map) over M samples: each of I, X, Y, Z
 \* in a quarter of the samples -- (4c - M)^2 <= 64 * 3M is 8 sigma of the binomial(M, 1/4); counts add up to M
-MarginalOK == (Rec.op = "marginal" /\ Done) =>
-    \A row \in 1..2 : \A q \in 1..Rec.n :
+MarginalOK == (Rec.op = "marginal" /\ Done /\ Rec.exact = FALSE) =>
+    \A row \in 1..Len(Rec.cnt) : \A q \in 1..Rec.n :
         LET c == Rec.cnt[row][q] IN
         /\ c[1] + c[2] + c[3] + c[4] = Rec.M
         /\ \A lt \in 1..4 : (4 * c[lt] - Rec.M) * (4 * c[lt] - Rec.M) <= 192 * Rec.M
+\* small N, many samples: exact probabilities num / D with D = 4^N - 1, num = 4^(N-1) - [letter = I]; the deviation
+\* c - M num / D (rounded towards zero by at most one) within 8 sigma, sigma^2 = M num (D - num) / D^2
+\* (the products are arranged to stay below 2^31)
+MarginalExactOK == (Rec.op = "marginal" /\ Done /\ Rec.exact = TRUE) =>
+    LET D == 4 ^ Rec.n - 1 IN
+    \A row \in 1..Len(Rec.cnt) : \A q \in 1..Rec.n :
+        LET c == Rec.cnt[row][q] IN
+        /\ c[1] + c[2] + c[3] + c[4] = Rec.M
+        /\ \A lt \in 1..4 :
+              LET num == 4 ^ (Rec.n - 1) - (IF lt = 1 THEN 1 ELSE 0)
+                  e0 == (Rec.M * num) \div D
+                  dev == IF c[lt] >= e0 THEN c[lt] - e0 ELSE e0 - c[lt]
+              IN (dev - 1) * (dev - 1) <= ((((64 * Rec.M) \div D) + 1) * num * (D - num)) \div D
 FairOK == (Rec.op = "fair" /\ Done) => (Rec.c0 - Rec.c1) * (Rec.c0 - Rec.c1) <= 64 * (Rec.c0 + Rec.c1) /\ Rec.c0 + Rec.c1 >= 1000
 \* gates without maps are resampled at every call: two calls under one seed differ for some seed of the block
 ResampleOK == (Rec.op = "resample" /\ Done) => Rec.differ >= 1 /\ Rec.compile_refused = TRUE
